@@ -223,6 +223,27 @@ where
         Ok(())
     }
 
+    /// Delete the most recent events belonging to a single event log.
+    ///
+    /// Commit hashes are not unique, neither across event logs that
+    /// share a table nor within an event log, so events to remove
+    /// when rewinding are selected by owner and position.
+    pub fn delete_tail(
+        &self,
+        log_type: EventLogType,
+        account_or_folder_id: i64,
+        count: usize,
+    ) -> Result<usize, SqlError> {
+        let table: EventTable = log_type.into();
+        let query = format!(
+            "DELETE FROM {table} WHERE event_id IN (SELECT event_id FROM {table} WHERE {column}=?1 ORDER BY event_id DESC LIMIT ?2)",
+            table = table.as_str(),
+            column = table.id_column(),
+        );
+        let mut stmt = self.conn.prepare_cached(&query)?;
+        stmt.execute((account_or_folder_id, count as i64))
+    }
+
     /// Insert events into an event log table.
     pub fn insert_events(
         &self,
